@@ -1,13 +1,74 @@
 /-
   Proofs/C12.lean — fast mode reproduces the normal simulation when fills are unambiguous
-  (theorems over the engine model).
+  (theorems over the engine model; helper lemmas in Proofs/Lemmas/Quiet.lean).
+  PROPERTY THEOREMS ONLY.
+
+  FULL STATEMENT (property C12): for a single-symbol session in which the normal simulation never fills more
+  than one resting order inside one trading-candle span and no liquidation occurs, the fast simulator produces
+  the same executed orders, closed trades and final balances.  PROVED HERE (partial): the two simulators leave
+  the same trading state over every span in which NO resting order is reachable — i.e. fills are the only
+  source of divergence; the spans that do contain (one) fill are decided by the paired-run oracle and the
+  per-simulator correspondence (see evidence.unproved).
 -/
-import Jesse.Engine
+import Proofs.Lemmas.Quiet
+import Proofs.C02
 
 namespace C12
-open Jesse Jesse.Eng
+open Jesse Jesse.Eng Jesse.Gen Jesse.Acc QuietLemmas
+
+variable {M : Type} [Inhabited M] (u : UserStrategy M)
 
 /-- with a single 1m route the fast simulator's step is one minute -/
 theorem step_one_minute : gcdList [1] = 1 := by decide
+
+/-- QUIET MINUTE (normal simulator): a minute in which no active order of the symbol has its price inside the
+    candle and no liquidation is possible only stores the candle and moves the current price — accounts,
+    orders, strategy states and the trace are untouched, for every strategy. -/
+theorem quiet_minute_partial (fuel : Nat) (e : Engine M) (sym : Nat) (c : Candle) (herr : e.err = none)
+    (hq : executingOrders e sym c = []) (hl : NoLiq e sym) :
+    simulateMinute u (fuel + 1) e sym c = setCurrentPrice (addCandle e sym 1 c) sym c.c :=
+  quiet_minute u fuel e sym c herr hq hl
+
+/-- QUIET CHUNK (fast simulator): a chunk whose aggregate candle contains no resting price only stores the
+    candles, moves the clock and the current price. -/
+theorem quiet_chunk_partial (fuel : Nat) (e : Engine M) (sym : Nat) (cs : List Candle) (real last : Candle) (short' : List Candle)
+    (herr : e.err = none) (hgen : Store.generate 0 cs = .ok real) (hq : executingOrders e sym real = [])
+    (hl : NoLiq e sym) (hadd : Store.addMultiple1m (storeOf e sym).short cs = .ok short') (hlast : cs.getLast? = some last) :
+    simulateChunk u fuel e sym cs =
+      setCurrentPrice { e with stores := upd e.stores sym (fun s => { s with short := short' }),
+                               time := real.ts + 60000 * cs.length } sym last.c :=
+  quiet_chunk u fuel e sym cs real last short' herr hgen hq hl hadd hlast
+
+/-- BOTH SIMULATORS AGREE OVER A QUIET SPAN: for a chunk of valid candles (first row already jump-fixed, as both
+    simulators do) whose aggregate candle contains no resting price of the symbol, with no liquidation
+    possible: the step simulator — minute by minute over the rows it sees (every later row jump-fixed against
+    its predecessor) — and the fast simulator — the chunk at once — end in the SAME trading state: accounts
+    incl. current price, orders, strategy states, pending market orders, trace, error flag, equity samples. -/
+theorem quiet_span_agree_partial (fuel : Nat) (e : Engine M) (sym : Nat) (cs : List Candle) (real last : Candle)
+    (short' : List Candle) (herr : e.err = none) (hv : ∀ c ∈ cs, c.Valid) (hgen : Store.generate 0 cs = .ok real)
+    (hq : executingOrders e sym real = []) (hl : NoLiq e sym)
+    (hadd : Store.addMultiple1m (storeOf e sym).short cs = .ok short') (hlast : cs.getLast? = some last) :
+    let r := (stepRows cs).foldl (stepMinute u fuel sym) e
+    let f := simulateChunk u fuel e sym cs
+    r.w = f.w ∧ r.log = f.log ∧ r.strat = f.strat ∧ r.toExecute = f.toExecute ∧ r.err = f.err ∧ r.via = f.via
+    ∧ r.storage = f.storage ∧ r.liquidations = f.liquidations ∧ r.daily = f.daily := by
+  obtain ⟨hin, hc⟩ := stepRows_within cs real hv hgen
+  exact quiet_span_agree u fuel e sym cs (stepRows cs) real last short' herr hgen hq hl hadd hlast hin
+    (by rw [hc, hlast]; rfl)
+
+/-! ### non-vacuity: the engine of C02's example (resting buys at 97 and 103) and a two-minute chunk inside (99, 101) -/
+
+def quietChunk : List Candle := [⟨60000, 100, 100.5, 101, 99.5, 1⟩, ⟨120000, 100.5, 100, 100.75, 99.75, 1⟩]
+def quietReal : Candle := ⟨60000, 100, 100, 101, 99.5, 2⟩
+
+example : C02.demoEngine.err = none ∧ (∀ c ∈ quietChunk, c.Valid) ∧ Store.generate 0 quietChunk = .ok quietReal
+    ∧ executingOrders C02.demoEngine 0 quietReal = [] ∧ NoLiq C02.demoEngine 0
+    ∧ Store.addMultiple1m (storeOf C02.demoEngine 0).short quietChunk = .ok quietChunk
+    ∧ quietChunk.getLast? = some ⟨120000, 100.5, 100, 100.75, 99.75, 1⟩ := by
+  refine ⟨by decide +kernel, by decide +kernel, by decide +kernel, by decide +kernel, ?_, by decide +kernel, by decide +kernel⟩
+  left; left; decide +kernel
+
+/-- and the conclusion is not trivial: both simulators moved the current price to the last close -/
+example : ((simulateChunk C02.idle 50 C02.demoEngine 0 quietChunk).w.pos.map (·.current)) = [some 100] := by decide +kernel
 
 end C12
